@@ -1,5 +1,6 @@
 import inspect
 import sys
+from dataclasses import fields as _dataclass_fields
 from dataclasses import is_dataclass
 from typing import (
     Any,
@@ -47,9 +48,15 @@ class DataclassLike(Protocol):
 _DCT = TypeVar("_DCT", bound=DataclassLike)
 
 
+def _dataclass_to_dict(val: Any) -> Dict[Any, Any]:
+    # read the declared fields rather than ``__dict__`` so that
+    # ``slots=True`` dataclasses (which have no ``__dict__``) work too
+    return {f.name: getattr(val, f.name) for f in _dataclass_fields(val)}
+
+
 def dataclass_no_coerce(data_cls: Type[_DCT]) -> Coercer[Dict[Any, Any]]:
     def _fn(val: Any) -> Maybe[Dict[Any, Any]]:
-        return Just(val.__dict__) if type(val) is data_cls else nothing
+        return Just(_dataclass_to_dict(val)) if type(val) is data_cls else nothing
 
     return Coercer(_fn, {data_cls})
 
@@ -178,7 +185,7 @@ class DataclassValidator(_ToTupleValidator[_DCT]):
         elif type(val) is dict:
             coerced_val = val
         elif type(val) is self.data_cls:
-            coerced_val = val.__dict__
+            coerced_val = _dataclass_to_dict(val)
         else:
             return False, Invalid(
                 CoercionErr(
@@ -229,7 +236,7 @@ class DataclassValidator(_ToTupleValidator[_DCT]):
         elif type(val) is dict:
             coerced_val = val
         elif type(val) is self.data_cls:
-            coerced_val = val.__dict__
+            coerced_val = _dataclass_to_dict(val)
         else:
             return False, Invalid(
                 CoercionErr(
